@@ -49,6 +49,8 @@ def tasks(tier, seed):
                 seqs.append(rng.sample(SINGLES, 3))
             # the pair that shares a variable name is always included
             seqs.append([('mincost', []), ('minsqcost', [])])
+            seqs.append([('gen', []), ('gre', [])])
+            seqs.append([('gre', []), ('gen', [])])
             for s in seqs:
                 if not lpchecks.admissible(I, s):
                     continue
